@@ -132,7 +132,10 @@ impl Judge<'_> {
                     } else if name == "blob" {
                         (1, 1 << 20)
                     } else {
-                        (64, 8 << 20)
+                        // a document of L bytes consisting of one-byte tokens costs the XML parser
+                        // ~73 bytes per token (measured); 128 L leaves room, anything super-linear
+                        // on the 2 MiB bombs is far above it
+                        (128, 8 << 20)
                     };
                     let b_alloc = fac * self.l + cons;
                     let b_read = read_factor * self.l + (64 << 10);
